@@ -122,6 +122,24 @@ def junk_objects():
         ('Hostile(getattr)', Hostile('getattr')), ('Hostile(bool)', Hostile('bool')), ('Hostile(none)', Hostile('none')),
         ('float("nan")', float('nan')), ('frozenset({int})', frozenset({int})), ('iter([])', iter([])),
         ('staticmethod(fn)', staticmethod(fn)), ('classmethod(fn)', classmethod(fn)), ('super', super), ('Ellipsis type', type(...)),
+        # valid hints that are unhashable (the metadata is), and unhashable non-hints
+        ('Annotated[int, [1]]', typing.Annotated[int, [1]]), ("Annotated[str, {'k': 1}]", typing.Annotated[str, {'k': 1}]),
+        ('Literal[[1]] ', typing.Literal[[1]]), ("bytearray(b'x')", bytearray(b'x')), ('[]', []), ('{}', {}),
+    ]
+
+
+def extra_confs():
+    """Non-default configurations the conf-taking entry points are also driven under (one per case, rotated).  None of
+    them changes the exception family of a violation or turns decoration errors into warnings."""
+    from beartype import BeartypeStrategy, FrozenDict
+    return [
+        ('is_pep484_tower=True', BeartypeConf(is_pep484_tower=True)),
+        ('hint_overrides={bytes: bytes|bytearray}', BeartypeConf(hint_overrides=FrozenDict({bytes: typing.Union[bytes, bytearray]}))),
+        ('strategy=On', BeartypeConf(strategy=BeartypeStrategy.On)),
+        ('strategy=O0', BeartypeConf(strategy=BeartypeStrategy.O0)),
+        ('is_random=False', BeartypeConf(is_random=False)),
+        ('is_color=False,violation_verbosity=MAXIMAL', BeartypeConf(is_color=False, violation_verbosity=beartype.BeartypeViolationVerbosity.MAXIMAL)),
+        ('claw_is_pep526=False,is_pep557_fields=True', BeartypeConf(claw_is_pep526=False, is_pep557_fields=True)),
     ]
 
 
@@ -152,6 +170,7 @@ def main():
     quick = W.quick
     limit = 200000 if quick else 10000000
     forms = special_forms() + junk_objects()
+    confs = extra_confs()
 
     def observe(api, label, fn, stream, idx, family):
         """Run fn(); judge what escapes.  family: BeartypeException subclass expected for failures."""
@@ -203,7 +222,7 @@ def main():
                     f'{api}({label}) leaked {cls.__name__}: {short(exc, 200)}', stream, idx,
                     dict(api=api, hint=label, exc=short(exc, 300)))
 
-    def drive(label, h, stream, idx, nontrivial=True):
+    def drive(label, h, stream, idx, nontrivial=True, all_confs=False):
         subj = SUBJECTS[idx % len(SUBJECTS)]
         W.evaluate((label,) if nontrivial else None)
         observe('is_bearable', label, lambda: is_bearable(subj, h), stream, idx, None)
@@ -221,6 +240,26 @@ def main():
         observe('@beartype', label, decorate, stream, idx, BeartypeDecorException)
         if 'f' in box:
             observe('decorated-call', label, lambda: box['f'](subj), stream, idx, BeartypeCallException)
+        # the conf-taking entry points once more under one non-default configuration
+        for cname, conf in (confs if all_confs else [confs[idx % len(confs)]]):
+            drive_conf(label, h, subj, stream, idx, cname, conf)
+
+    def drive_conf(label, h, subj, stream, idx, cname, conf):
+        box = {}
+        clabel = f'{label} [conf {cname}]'
+        W.count('conf.' + cname)
+        observe('is_bearable', clabel, lambda: is_bearable(subj, h, conf=conf), stream, idx, None)
+        observe('die_if_unbearable', clabel, lambda: die_if_unbearable(subj, h, conf=conf), stream, idx, None)
+        box.clear()
+
+        def decorate_conf():
+            def f(a, b=0):
+                return a
+            f.__annotations__ = {'a': h, 'return': h}
+            box['f'] = beartype.beartype(conf=conf)(f)
+        observe('@beartype', clabel, decorate_conf, stream, idx, BeartypeDecorException)
+        if 'f' in box:
+            observe('decorated-call', clabel, lambda: box['f'](subj), stream, idx, BeartypeCallException)
 
     # ---- every form alone and nested (lead worker: the directed sweep) ---------------------
     if W.is_lead():
@@ -232,7 +271,7 @@ def main():
                 except Exception:
                     W.count('typing_refused_construction')
                     continue
-                drive(wname.format(name), hh, 'directed', k)
+                drive(wname.format(name), hh, 'directed', k, all_confs=(wname == '{}'))
                 k += 1
         W.count('directed_forms', len(forms))
         # very deep nestings
